@@ -189,7 +189,12 @@ class Sim:
                 self.unload_error = f"{type(e).__name__}: {e}"
             self.unload_done = self.loop.time()
 
-        self._unload_task = asyncio.ensure_future(do())
+        if getattr(self, "self_unload", False):
+            # a self-unloading overlay: the unload is awaited by one of the overlay's OWN tasks (a periodic task or a
+            # message handler deciding to leave)
+            self._unload_task = ov.register_anonymous_task("application decides to leave", do)
+        else:
+            self._unload_task = asyncio.ensure_future(do())
 
     def handler_entered(self, node, kind, msg_id):
         if node is self.target and self.after_unload():
@@ -768,6 +773,21 @@ def tunnel_flags(role_index, n, hops):
     return base
 
 
+def drain(loop):
+    """End of a run: ask every pending task to stop and give the loop a few iterations — without WAITING for them (a task
+    that deadlocked on a gather containing itself can neither be cancelled nor awaited)."""
+    try:
+        for t in [t for t in asyncio.all_tasks(loop) if not t.done()]:
+            try:
+                t.cancel()
+            except RecursionError:
+                pass
+        for _ in range(6):
+            loop.run_until_complete(asyncio.sleep(0))
+    except BaseException:  # noqa: BLE001
+        pass
+
+
 def count_socket_fds():
     n = 0
     try:
@@ -852,11 +872,7 @@ def run_scenario(spec, dry=False):
     finally:
         Sim.current = None
         try:
-            pending = [t for t in asyncio.all_tasks(loop) if not t.done()]
-            for t in pending:
-                t.cancel()
-            if pending:
-                loop.run_until_complete(asyncio.gather(*pending, return_exceptions=True))
+            drain(loop)
             for _, tr in sim.transports + sim.loop_transports:
                 if not tr.is_closing():
                     tr.close()
@@ -890,6 +906,7 @@ async def _scenario_main(sim, cls, spec, rng, dry):
     wire_bootstrappers(nodes)
     sim.socket_baseline = count_socket_fds()
     sim.silence = spec.get("silence", "none")
+    sim.self_unload = bool(spec.get("self_unload"))
     if not dry:
         sim.target = target
         trig = spec["trigger"]
@@ -911,7 +928,15 @@ async def _scenario_main(sim, cls, spec, rng, dry):
         return
     if sim.unload_started is None:
         sim.request_unload()           # trigger beyond the end of the run / "idle"
-    await asyncio.wait_for(asyncio.shield(sim._unload_task), 600)
+    try:
+        await asyncio.wait_for(asyncio.shield(sim._unload_task), 600)
+    except asyncio.TimeoutError:
+        sim.violate("unload:never-returned",
+                    f"{cls.__name__}.unload() had not returned 600 virtual s after it was requested"
+                    + (" from inside one of the overlay's own tasks" if getattr(sim, "self_unload", False) else ""))
+        sim.unload_done = sim.loop.time()
+    except asyncio.CancelledError:
+        pass            # the overlay's own task that awaited the unload ends cancelled (it was one of the tracked tasks)
     if sim.unload_error:
         sim.violate("unload:raised", f"{cls.__name__}.unload() raised {sim.unload_error}")
     ov = target.overlay
@@ -1336,12 +1361,16 @@ def tm_gen(rng, n_ops):
     at a quiescent point (the coroutine itself only starts in the next loop iteration)."""
     lines = []
     dirty = set()
+    any_stubborn = [False]
+    plain_long = {}          # name -> True while a long task without cancellation delay is (probably) registered there
 
     def rand_spec():
         kind = rng.choice(["imm", "imm", "long", "long", "delayed", "interval", "interval", "fut"])
         d = rng.choice([0, 1, 2, 3]) if kind == "interval" else (rng.choice([1, 2, 3]) if kind == "delayed" else 0)
         i = rng.choice([1, 2, 3]) if kind == "interval" else 1
         stub = rng.choice([0, 0, 1, 2]) if kind == "long" else 0
+        if stub:
+            any_stubborn[0] = True
         return (kind, d, i, stub)
 
     for _ in range(n_ops):
@@ -1355,18 +1384,27 @@ def tm_gen(rng, n_ops):
         if r < 0.32:
             sp = rand_spec()
             lines.append(f"t reg {name} {sp[0]} {sp[1]} {sp[2]} {sp[3]}")
+            if name not in plain_long:
+                plain_long[name] = sp[0] == "long" and sp[3] == 0
         elif r < 0.45:
             lines.append(f"t cancel {name}")
+            plain_long.pop(name, None)
         elif r < 0.60:
             sp = rand_spec()
             if sp[0] == "fut":
                 sp = ("imm", 0, 1, 0)
             lines.append(f"t replace {name} {sp[0]} {sp[1]} {sp[2]} {sp[3]}")
             dirty.add(name)
+            plain_long[name] = False
         elif r < 0.66:
             lines.append("t settle")
             dirty.clear()
-            lines.append("t shutdown")
+            own = [n for n, ok in plain_long.items() if ok]
+            if own and not any_stubborn[0] and rng.random() < 0.5:
+                # the shutdown is requested from INSIDE one of the manager's own tasks (a self-unloading overlay)
+                lines.append(f"t selfshutdown {rng.choice(own)}")
+            else:
+                lines.append("t shutdown")
         elif r < 0.72:
             lines.append(f"t active {name}")
         elif r < 0.84:
@@ -1389,7 +1427,7 @@ def tm_exec(lines):
         tm = TaskManager()
         runs = []
         futs = []
-        state = {"dead": False, "requested": False}
+        state = {"dead": False, "requested": False, "self_done": asyncio.get_running_loop().create_future()}
         orig_register = tm.register_task
         live = {}            # the harness's own view of "a task of this name is still active"
 
@@ -1402,21 +1440,29 @@ def tm_exec(lines):
             futs.append(f)
             if not f.done():
                 live[name] = f
+                wake[name] = getattr(a[0], "c11_ev", None) if a else None
             return f
 
         tm.register_task = reg_wrapper
 
+        wake = {}            # name -> Event: tells the long task of that name to shut its own manager down
+
         def mk_body(name, spec):
             kind, _, _, stub = spec
             if kind == "long":
+                ev = asyncio.Event()
+
                 async def body():
                     runs.append(name)
                     try:
-                        await sleep(10 ** 7)
+                        await ev.wait()
+                        await do_shutdown()                      # shut the manager down from inside its own task
+                        state["self_done"].set_result(None)
                     except CancelledError:
                         if stub:
                             await sleep(stub)
                         raise
+                body.c11_ev = ev
                 return body
 
             def body():
@@ -1449,7 +1495,8 @@ def tm_exec(lines):
             return f"active=[{','.join(map(str, active))}] runs=[{','.join(map(str, r))}] alive={alive} down={down}"
 
         async def do_shutdown():
-            tracked = [f for f in live.values() if not f.done()]
+            me = asyncio.current_task()
+            tracked = [f for f in live.values() if not f.done() and f is not me]
             await tm.shutdown_task_manager()
             state["dead"] = True
             left = [f for f in tracked if not f.done()]
@@ -1515,6 +1562,18 @@ def tm_exec(lines):
                     shutdown_task = asyncio.ensure_future(do_shutdown())
                     await sleep(0)       # the model's op is "flag + cancel": run the coroutine up to its first await
                 impl.append("ok")
+            elif op == "selfshutdown":
+                kinds.add("shutdown-from-own-task")
+                name = int(t[2])
+                if shutdown_task is None and wake.get(name) is not None and name in live and not live[name].done():
+                    state["requested"] = True
+                    shutdown_task = state["self_done"]
+                    wake[name].set()
+                    await sleep(0)       # the task wakes up and runs shutdown_task_manager up to its first await
+                    await sleep(0)
+                elif shutdown_task is None:
+                    raise InfraError(f"selfshutdown {name}: no running long task of that name (generator bug)")
+                impl.append("ok")
             elif op == "active":
                 impl.append("1" if tm.is_pending_task_active(int(t[2])) else "0")
                 kinds.add("active?")
@@ -1534,26 +1593,30 @@ def tm_exec(lines):
         if shutdown_task is None:
             state["requested"] = True
             shutdown_task = asyncio.ensure_future(do_shutdown())
-        await asyncio.wait_for(shutdown_task, 100)
+        try:
+            await asyncio.wait_for(asyncio.shield(shutdown_task), 100)
+        except asyncio.TimeoutError:
+            findings.append(("shutdown_task_manager:never-returned",
+                             "shutdown_task_manager() had not returned 100 virtual s after it was called"
+                             + (" from inside one of the manager's own tasks" if shutdown_task is state["self_done"] else "")))
         await sleep(50)
         left = [f for f in futs if not f.done()]
         if left:
             findings.append(("shutdown_task_manager:task-survived",
                              f"{len(left)} registered task(s) still pending 50 virtual s after shutdown_task_manager() completed"))
         for f in left:
-            f.cancel()
+            try:
+                f.cancel()
+            except RecursionError:       # a task that waits for a gather that contains itself
+                pass
         await settle()
 
     try:
         loop.run_until_complete(main())
     finally:
         try:
-            pend = [t for t in asyncio.all_tasks(loop) if not t.done()]
-            for t in pend:
-                t.cancel()
-            if pend:
-                loop.run_until_complete(asyncio.gather(*pend, return_exceptions=True))
-        except Exception:  # noqa: BLE001
+            drain(loop)
+        except BaseException:  # noqa: BLE001
             pass
         vclock.uninstall()
         loop.close()
@@ -1659,11 +1722,7 @@ def cache_exec(lines):
         loop.run_until_complete(main())
     finally:
         try:
-            pend = [t for t in asyncio.all_tasks(loop) if not t.done()]
-            for t in pend:
-                t.cancel()
-            if pend:
-                loop.run_until_complete(asyncio.gather(*pend, return_exceptions=True))
+            drain(loop)
         except Exception:  # noqa: BLE001
             pass
         vclock.uninstall()
@@ -1790,11 +1849,7 @@ def unload_static_case(cls_name, stack, with_exit):
     finally:
         Sim.current = None
         try:
-            pend = [t for t in asyncio.all_tasks(loop) if not t.done()]
-            for t in pend:
-                t.cancel()
-            if pend:
-                loop.run_until_complete(asyncio.gather(*pend, return_exceptions=True))
+            drain(loop)
             for _, tr in sim.transports:
                 if not tr.is_closing():
                     tr.close()
@@ -1910,6 +1965,9 @@ def inflight_specs(cls, stack, rng, deep):
 
 
 def run_one_scenario(ctx: Ctx, spec):
+    if "self_unload" not in spec and ctx.replay_input is None:
+        spec = {**spec, "self_unload": ctx.rng.random() < 0.15}
+    ctx.count("unload-requested-from:" + ("own-task" if spec.get("self_unload") else "outside"))
     viol, st = run_scenario(spec)
     trig = spec["trigger"]
     ctx.count(f"scenario:{spec['cls']}")
@@ -1923,7 +1981,8 @@ def run_one_scenario(ctx: Ctx, spec):
     ctx.count("target-traffic:%s" % ("none" if st["pre_sent"] + st["pre_recv"] == 0 else
                                      "1-9" if st["pre_sent"] + st["pre_recv"] < 10 else "10+"))
     nontrivial = (st["pre_sent"] + st["pre_recv"] > 0) or st["pre_tasks"] > 0      # RULE: traffic or a protocol task pending
-    ctx.case((spec["cls"], spec["stack"], spec["family"], spec["target"], tuple(trig), spec["hops"], spec.get("silence")), nontrivial)
+    ctx.case((spec["cls"], spec["stack"], spec["family"], spec["target"], tuple(trig), spec["hops"], spec.get("silence"),
+              bool(spec.get("self_unload"))), nontrivial)
     for sig, what in viol:
         ctx.count("violation:" + sig)
         ctx.oracle_fail(sig, f"[{spec['cls']} on {spec['stack']} endpoint, scenario {spec['family']}, node {spec['target']}, "
